@@ -1,5 +1,6 @@
 import AndaVerif.Proofs.BeliefExtend
 import AndaVerif.Proofs.BeliefRounding
+import AndaVerif.Model.BeliefTime
 /-
 Property C20 — belief is projected: silence is not rejection, repetition is not support.
 Theorems over `AndaVerif.Model.Belief` (the model of projection/mod.rs and projection/policy.rs).
@@ -570,6 +571,46 @@ example :
         status := st, visible := true, validFrom := none, validUntil := none }
     (projectAt Policy.baseline 0 [row 0 .active, row 1 .retracted] false [0] 0).map (fun a => (a.status, a.ledger.excluded)) =
       some (.accepted, []) := by
+  decide
+
+-- ------------------------------------------------------------------------------------------
+-- the evaluation instant is an instant, not a text
+-- ------------------------------------------------------------------------------------------
+
+/-- The projection asked `FOR TIME <text>`: the text is normalised (`time::normalize`, model
+`BeliefTime.parseInstant`: milliseconds since the epoch) and the belief is projected at that
+instant over the rows eligible then; an unreadable text is refused. `clock` is any map from
+instants to the model's clock (the harness' is affine: 250 ms ticks from a base instant). -/
+def projectForTime (pol : Policy) (clock : Int → Nat) (text : String) (snapshot : List Row) (functional : Bool)
+    (slot : List Nat) (target : Nat) : Option (Option Answer) :=
+  (AndaVerif.BeliefTime.parseInstant text).map
+    (fun ms => projectAt pol (clock ms) snapshot functional slot target)
+
+/-- **Eligibility by validity window depends on the instant, never on its spelling**: two texts that
+denote the same instant give the same answer (status, scores, counts, every ledger), for every
+store, policy and clock. That the engine's query context is only ever given `time::now()` or the
+result of `time::normalize` is pinned by the generated fact `gen_instant_is_normalised`; that
+`normalize` computes `parseInstant` is compared on every run (driver op `norm`). -/
+theorem evaluation_instant_not_text (pol : Policy) (clock : Int → Nat) {t₁ t₂ : String}
+    (h : AndaVerif.BeliefTime.parseInstant t₁ = AndaVerif.BeliefTime.parseInstant t₂)
+    (snapshot : List Row) (functional : Bool) (slot : List Nat) (target : Nat) :
+    projectForTime pol clock t₁ snapshot functional slot target =
+      projectForTime pol clock t₂ snapshot functional slot target := by
+  unfold projectForTime; rw [h]
+
+/-- Seven spellings of one instant (offsets that land on another day or hour, 1/3/6/9 fractional
+digits, `+00:00`, lowercase), an earlier instant that sorts *after* it as a text, and refusals. -/
+example :
+    let i := AndaVerif.BeliefTime.parseInstant
+    i "2030-06-15T20:30:00.500Z" = some 1907785800500 ∧
+    i "2030-06-15T20:30:00.500+00:00" = some 1907785800500 ∧
+    i "2030-06-16T04:30:00.500+08:00" = some 1907785800500 ∧
+    i "2030-06-15T12:30:00.500-08:00" = some 1907785800500 ∧
+    i "2030-06-16T02:00:00.5+05:30" = some 1907785800500 ∧
+    i "2030-06-15T20:30:00.500000Z" = some 1907785800500 ∧
+    i "2030-06-15t20:30:00.500000000z" = some 1907785800500 ∧
+    i "2030-06-16T04:29:59.750+08:00" = some 1907785799750 ∧
+    i "2030-06-15T20:30:00.500" = none ∧ i "2030-02-29T00:00:00Z" = none := by
   decide
 
 end AndaVerif.Belief.C20
